@@ -33,7 +33,9 @@ RULE = ("kind=prog: statement lists over temporaries A,B,C,D,G,H, PK names CL,VC
         "assignment to a data column, optional compartmental system with generated rates; every refactoring "
         "(make_declarative, cleanup_model, rename_symbols, replace_non_random_rvs, replace_fixed_thetas, "
         "mu_reference_model, extractors) applied to each. kind=model: pheno / pheno_linear after 0-2 seeded "
-        "transformations, every refactoring of the property applied. non-trivial = at least one refactoring "
+        "transformations, every refactoring of the property applied. kind=wide: ODE-free model over 7-18 covariate columns, "
+        "2-5 etas, 1-2 epsilons with distinct coefficients (11-25 data symbols in the compiled expressions): extractors and "
+        "all numeric evaluators with every argument form. non-trivial = at least one refactoring "
         "changed the statements; distinct = distinct case JSON")
 TRUSTED = [
     "Lean 4.33 kernel; axioms propext, Quot.sound, Classical.choice only (audited per theorem each run)",
@@ -145,9 +147,40 @@ def gen_rv(rng):
     return {"joint": joint, "fix": fix}
 
 
+def gen_wide(rng):
+    """An ODE-free model over MANY data symbols: 7-18 covariate columns, 2-5 etas, 1-2 epsilons, every one with its own
+    coefficient (nothing symmetric), so that the expression the evaluators compile has 11-25 distinct data symbols."""
+    ncov, neta, neps = rng.randint(7, 18), rng.randint(2, 5), rng.randint(1, 2)
+    covs = [f"C{i}" for i in range(1, ncov + 1)]
+    nth = min(ncov, 9)
+    coef = rng.sample(range(2, 40), ncov)
+    half = max(3, ncov // 2)
+    stmts = [["=", "BASE", " + ".join(f"{coef[i]}*TH{i % nth + 1}*{covs[i]}" for i in range(half))]]
+    rest = covs[half:]
+    for j in range(1, neta + 1):
+        c = rest[(j - 1) % len(rest)]
+        k = coef[(half + j) % ncov]
+        form = rng.randrange(3)
+        e = [f"(TH{j % nth + 1}*{c} + {k})*exp(ETA_{j})", f"(TH{j % nth + 1}*{c}*{k} + ETA_{j})", f"{k}*{c}*(1 + ETA_{j})"][form]
+        stmts.append(["=", f"P{j}", e])
+    tail = " + ".join(f"{coef[(half + neta + i) % ncov]}*{c}" for i, c in enumerate(rest[neta:])) or "1"
+    stmts.append(["=", "Q", tail])
+    prod = "*".join(f"P{j}" for j in range(1, neta + 1, 2))
+    den = " + ".join(f"P{j}" for j in range(2, neta + 1, 2))
+    stmts.append(["=", "F", f"BASE*{prod}/({den} + 11*Q + 13)"])
+    if rng.random() < 0.4:
+        stmts.append(["=", "F", f"Piecewise((F*2, {rng.choice(covs)} < 2), (F, True))"])
+    y = "F + F*EPS_1" + (f" + {rng.choice(covs)}*EPS_2" if neps == 2 else "")
+    stmts.append(["=", "Y", y])
+    return {"kind": "wide", "covs": covs, "nth": nth, "neta": neta, "neps": neps, "stmts": stmts, "seed": rng.randrange(1 << 30)}
+
+
 def gen_cases(rng, n, tier):
     out = []
     for i in range(n):
+        if i % 7 == 3:
+            out.append(gen_wide(rng))
+            continue
         if i % 7 == 6:
             out.append({"kind": "model", "base": rng.choice(["pheno", "pheno", "pheno", "pheno_linear"]),
                         "pre": [rng.choice(PRE_STEPS) for _ in range(rng.randint(0, 2))], "seed": rng.randrange(1 << 30)})
@@ -211,6 +244,10 @@ def corpus_cases():
          "base": "rv", "rv": {"joint": True, "fix": {"IIV_CL": 0, "IIV_VC": "keep", "COV": 0}}, "rename": [["CL", "R_CL"]], "seed": 14},
         {"kind": "model", "base": "pheno", "pre": ["blockfix0"], "seed": 15},
         {"kind": "model", "base": "pheno", "pre": ["iov", "iovfix0"], "seed": 16},
+        # twelve data symbols in the compiled expression (nine covariates, three etas), nothing symmetric
+        {"kind": "wide", "covs": [f"C{i}" for i in range(1, 10)], "nth": 9, "neta": 3, "neps": 1, "seed": 17,
+         "stmts": [A("BASE", "3*TH1*C1 + 5*TH2*C2 + 7*TH3*C3 + 11*TH4*C4 + 13*TH5*C5 + 17*TH6*C6"), A("P1", "(TH7*C7 + 2)*exp(ETA_1)"),
+                   A("P2", "(TH8*C8*19 + ETA_2)"), A("P3", "23*C9*(1 + ETA_3)"), A("F", "BASE*P1*P3/(P2 + 13)"), A("Y", "F + F*EPS_1")]},
         {"kind": "model", "base": "pheno", "pre": [], "seed": 6},
         {"kind": "model", "base": "pheno", "pre": ["peripheral", "absorption"], "seed": 7},
         {"kind": "model", "base": "pheno_linear", "pre": [], "seed": 8},
@@ -218,6 +255,13 @@ def corpus_cases():
 
 
 def shrink(case):
+    if case.get("kind") == "wide":
+        st = case["stmts"]
+        for i in range(len(st) - 1):
+            c = dict(case)
+            c["stmts"] = st[:i] + st[i + 1:]
+            yield c
+        return
     if case.get("kind") != "prog":
         if case.get("pre"):
             for i in range(len(case["pre"])):
@@ -400,7 +444,58 @@ def _wire_or_none(sts, tags):
 def run_case(case, drv):
     if case["kind"] == "prog":
         return run_prog(case, drv)
+    if case["kind"] == "wide":
+        return run_wide(case, drv)
     return run_model(case, drv)
+
+
+# ---------------------------------------------------------------- kind = wide
+
+def build_wide(case):
+    from pharmpy.model import DataInfo, Model, NormalDistribution, Parameter, Parameters, RandomVariables
+    import pandas as pd
+    r = random.Random(case["seed"] ^ 0xDA7A)
+    nid, nobs = 3, 3
+    data = {"ID": [i for i in range(1, nid + 1) for _ in range(nobs)], "TIME": [float(t) for _ in range(nid) for t in range(nobs)],
+            "DV": [r.randint(100, 300) / 100 for _ in range(nid * nobs)]}
+    for c in case["covs"]:
+        data[c] = [r.randint(50, 400) / 100 for _ in range(nid * nobs)]
+    df = pd.DataFrame(data)
+    params = [Parameter.create(f"TH{i}", init=(30 + 17 * i) / 100) for i in range(1, case["nth"] + 1)]
+    params += [Parameter.create(f"OM{j}", init=(8 + j) / 100) for j in range(1, case["neta"] + 1)]
+    params += [Parameter.create(f"SI{j}", init=(3 + j) / 100) for j in range(1, case["neps"] + 1)]
+    dists = [NormalDistribution.create(f"ETA_{j}", "iiv", 0, f"OM{j}") for j in range(1, case["neta"] + 1)]
+    dists += [NormalDistribution.create(f"EPS_{j}", "ruv", 0, f"SI{j}") for j in range(1, case["neps"] + 1)]
+    di = DataInfo.create(list(df.columns)).set_id_column("ID").set_idv_column("TIME").set_dv_column("DV")
+    return Model.create(name="wide", parameters=Parameters.create(params), random_variables=RandomVariables.create(dists),
+                        statements=build_statements(case["stmts"]), dataset=df, datainfo=di,
+                        dependent_variables={Expr.symbol("Y"): 1})
+
+
+def run_wide(case, drv):
+    """Extractors and numeric evaluators on a model whose compiled expressions have many data symbols."""
+    global SMALL
+    seed = case["seed"]
+    rng = random.Random(seed)
+    k, mon, tags = [], [], []
+    M = build_wide(case)
+    w = _wire_or_none(M.statements, tags)
+    saved = SMALL
+    try:
+        SMALL = set(M.random_variables.names)
+        k2, m2 = _extractors(M, w, drv, rng, seed, tags)
+    finally:
+        SMALL = saved
+    k += k2
+    mon += m2
+    if "obs-safe" in tags:
+        nsym = len({str(x) for x in exprconv.to_sympy(pm.get_individual_prediction_expression(M)).free_symbols}
+                   - set(M.parameters.names))
+        tags.append(f"wide:data-symbols={'>10' if nsym > 10 else '<=10'}")
+        k3, m3 = EV.run(pm, Expr, M, w, drv, seed, tags, what=f"wide({len(case['covs'])} covariates, {case['neta']} etas): ")
+        k += k3
+        mon += m3
+    return {"k": k, "mon": mon, "tags": tags + ["kind=wide"], "nontrivial": True}
 
 
 # ---------------------------------------------------------------- kind = prog
